@@ -48,6 +48,13 @@ def gen_lists(tier):
                         if tier == "quick" and (pattern + pi + li) % 2:
                             continue
                         yield {"k": "lists", "sizes": list(sizes), "pat": pattern, "var": variant, "place": place, "lab": lab}
+    # rows of different lists interleaved on the sheet (c, c1, d, c, c1, ...): each list keeps all its rows, in its own order
+    for sizes in ([2, 2, 0], [3, 2, 2], [2, 1, 2], [3, 1, 0]):
+        for variant in VARIANTS:
+            for place in ("top", "repeat"):
+                for lab in ("plain", "lang"):
+                    for il in ("rr", "rev"):
+                        yield {"k": "lists", "sizes": sizes, "pat": 6, "var": variant, "place": place, "lab": lab, "il": il}
     # a list whose name contains a dot and has another list's name as its stem (c.1 next to c)
     for sizes in ([1, 2, 0], [3, 1, 2]):
         for variant in VARIANTS:
@@ -81,6 +88,11 @@ def ext_features():
         "pulldata-rel": ({"type": "text", "name": "p2", "label": "P2", "relevant": "pulldata('pd1', 'a', 'b', 'c') = 1"}, {"pd1": "jr://file-csv/pd1.csv"}),
         "pulldata-constraint": ({"type": "text", "name": "p3", "label": "P3", "constraint": ". = pulldata('pd2', 'a', 'b', 'c')"}, {"pd2": "jr://file-csv/pd2.csv"}),
         "pulldata-f1": ({"type": "text", "name": "p4", "label": "P4", "required": "pulldata('f1', 'a', 'b', 'c') = 1"}, {"f1": "jr://file-csv/f1.csv"}),
+        "pulldata-multi": ({"type": "calculate", "name": "p5", "calculation": "if(pulldata('pd1', 'a', 'b', 'c') > 0, pulldata('pd1', 'a', 'b', 'd') * pulldata('pd3', 'a', 'b', 'c'), 0)"},
+                           {"pd1": "jr://file-csv/pd1.csv", "pd3": "jr://file-csv/pd3.csv"}),
+        "pulldata-two-cells": ({"type": "integer", "name": "p6", "label": "P6", "calculation": "pulldata('pd1', 'a', 'b', 'c')",
+                                "constraint": ". < pulldata('pd1', 'a', 'b', 'c') + pulldata('pd4', 'a', 'b', 'c')"},
+                               {"pd1": "jr://file-csv/pd1.csv", "pd4": "jr://file-csv/pd4.csv"}),
         "last-saved": ({"type": "text", "name": "l1", "label": "L1", "default": "${last-saved#t0}"}, {"__last-saved": "jr://instance/last-saved"}),
         "last-saved-2": ({"type": "text", "name": "l2", "label": "L2", "calculation": "${last-saved#t0} + 1"}, {"__last-saved": "jr://instance/last-saved"}),
         "choices-c": ({"type": "select_one c", "name": "sc", "label": "SC"}, {"c": None}),
@@ -140,6 +152,12 @@ def build_lists(case):
                 if case["pat"] >> (2 * i + 1) & 1:
                     ch["y"] = f"y{i}"
             choices.append(ch)
+    if case.get("il"):
+        by = {}
+        for c in choices:
+            by.setdefault(c["list_name"], []).append(c)
+        groups = list(by.values()) if case["il"] == "rr" else list(by.values())[::-1]
+        choices = [g[i] for i in range(max(len(g) for g in groups)) for g in groups if i < len(g)]
     v = case["var"]
     sel = {"type": "select_one c", "name": "s", "label": "S"}
     qs = [{"type": "integer", "name": "n", "label": "N"}, sel]
